@@ -134,8 +134,7 @@ static std::vector<uint64_t> channel_values(int n, vh::rng& r, int nrand) {
 
 // --- the exhaustive part: ref = v over backgrounds x values, whole arena compared --------------------
 // The field (bf_bytes bytes) sits at byte `off` of a 48-byte arena; the channel occupies bits [fb, fb+num) of it.
-static void sweep_assign(const chan_ops& o0, unsigned fb, size_t off, vh::rng& r, uint64_t& evals) {
-    chan_ops o = o0; o.cls = vh::cat(o0.cls, ".fb", fb);
+static void sweep_assign(const chan_ops& o, unsigned fb, size_t off, vh::rng& r, uint64_t& evals) {
     alignas(16) byte mem[48], exp[48];
     for (int i = 0; i < 48; ++i) mem[i] = exp[i] = (byte)r.next();
     const int nb = o.bf_bytes;
@@ -178,8 +177,7 @@ static void sweep_assign(const chan_ops& o0, unsigned fb, size_t off, vh::rng& r
 }
 
 // --- the other operations on a seeded sample of backgrounds -------------------------------------------
-static void other_ops(const chan_ops& o0, unsigned fb, vh::rng& r, uint64_t& evals) {
-    chan_ops o = o0; o.cls = vh::cat(o0.cls, ".fb", fb);
+static void other_ops(const chan_ops& o, unsigned fb, vh::rng& r, uint64_t& evals) {
     arena A(96);
     const size_t offA = 24 + r.below(3), offB = 56 + r.below(3);   // two disjoint fields
     const long wA = (long)offA * 8 + fb, wB = (long)offB * 8 + fb;
@@ -776,6 +774,8 @@ int main(int argc, char** argv) {
     some_firsts<uint32_t, 12, 0, 7, 20>(); some_firsts<uint32_t, 16, 0, 9, 16>();
     some_firsts<uint64_t, 1, 0, 31, 32, 63>(); some_firsts<uint64_t, 3, 0, 30, 61>(); some_firsts<uint64_t, 5, 0, 29, 59>(); some_firsts<uint64_t, 8, 0, 28, 32, 56>();
     some_firsts<uint64_t, 12, 0, 26, 52>(); some_firsts<uint64_t, 16, 0, 24, 31, 48>();
+    // wide channels (beyond the 1..16 bit widths the property enumerates; the documentation allows them)
+    some_firsts<uint32_t, 24, 0, 8>(); some_firsts<uint64_t, 24, 0, 17, 40>(); some_firsts<uint64_t, 30, 0, 20, 34>();
 #elif C08_PART == 3
     channel_case(dynamic_ops<uint8_t, 1>()); channel_case(dynamic_ops<uint8_t, 2>()); channel_case(dynamic_ops<uint8_t, 3>()); channel_case(dynamic_ops<uint8_t, 4>());
     channel_case(dynamic_ops<uint8_t, 5>()); channel_case(dynamic_ops<uint8_t, 6>()); channel_case(dynamic_ops<uint8_t, 7>()); channel_case(dynamic_ops<uint8_t, 8>());
@@ -787,6 +787,8 @@ int main(int argc, char** argv) {
     channel_case(dynamic_ops<uint32_t, 16>());
     channel_case(dynamic_ops<uint64_t, 1>()); channel_case(dynamic_ops<uint64_t, 4>()); channel_case(dynamic_ops<uint64_t, 7>()); channel_case(dynamic_ops<uint64_t, 8>());
     channel_case(dynamic_ops<uint64_t, 12>()); channel_case(dynamic_ops<uint64_t, 16>());
+    // wide channels (beyond the 1..16 bit widths the property enumerates; the documentation allows them)
+    channel_case(dynamic_ops<uint32_t, 24>()); channel_case(dynamic_ops<uint64_t, 20>()); channel_case(dynamic_ops<uint64_t, 30>()); channel_case(dynamic_ops<uint64_t, 32>());
 #elif C08_PART == 4
     // bit-aligned pixels with the bit field bit_aligned_image_type would choose (min_fast_uint<bit_size+7>)
     pixel_case(ba_ops<uint8_t, mp_list_c<int, 1>, gil::gray_layout_t>("gray1", {0}));
@@ -801,6 +803,7 @@ int main(int argc, char** argv) {
     pixel_case(ba_ops<uint16_t, mp_list_c<int, 2, 2, 2, 2>, gil::rgba_layout_t>("rgba2222", {0, 1, 2, 3}));
     pixel_case(ba_ops<uint64_t, mp_list_c<int, 8, 8, 8, 8, 8>, gil::devicen_layout_t<5>>("dev5x8", {0, 1, 2, 3, 4}));
     pixel_case(ba_ops<uint32_t, mp_list_c<int, 3, 12, 9>, gil::rgb_layout_t>("rgb3_12_9", {0, 1, 2}));
+    pixel_case(ba_ops<uint64_t, mp_list_c<int, 30, 30>, gil::devicen_layout_t<2>>("dev30x2", {0, 1}));   // wide channels, 60-bit pixel
 #elif C08_PART == 6
     // packed pixels (byte-aligned objects, compile-time channel references), some with unused high bits
     pixel_case(pk_ops<uint16_t, mp_list_c<unsigned, 5, 6, 5>, gil::rgb_layout_t>("pk.rgb565", {0, 1, 2}));
